@@ -1092,4 +1092,194 @@ theorem specInter_extras {σ : Type} {c : Config} {fl : Flags} (L : Learner σ V
     · split at hb <;> simp at hb; subst hb; simp [implicitExclude]
     · simp at hb
 
+/-! ## from the spec back to the model -/
+
+/-- the run decomposes into one step per interaction, each being `specInter` on that interaction from the
+learner state reached so far -/
+theorem specRun_steps {σ : Type} {c : Config} {fl : Flags} (L : Learner σ V) (vs : List (View V R)) (s : σ)
+    (r : σ × List (Call V) × List (Row V R)) (h : specRun c fl L s vs = some r) :
+    ∃ steps : List (σ × List (Call V) × Row V R),
+      steps.length = vs.length ∧ r.2.1 = (steps.map (·.2.1)).flatten ∧ r.2.2 = steps.map (·.2.2) ∧
+      ∀ vst ∈ vs.zip steps, ∃ s', specInter c fl L vst.2.1 vst.1 = some (s', vst.2.2.1, vst.2.2.2) := by
+  induction vs generalizing s r with
+  | nil =>
+    simp only [specRun, Option.some.injEq] at h
+    subst h
+    exact ⟨[], rfl, rfl, rfl, by simp⟩
+  | cons v vs ih =>
+    simp only [specRun, Option.bind_eq_some_iff, Option.map_eq_some_iff] at h
+    obtain ⟨r1, h1, r2, h2, hr⟩ := h
+    subst hr
+    obtain ⟨st, hs1, hs2, hs3, hs4⟩ := ih r1.1 r2 h2
+    refine ⟨(s, r1.2.1, r1.2.2) :: st, by simp [hs1], by simp [hs2], by simp [hs3], ?_⟩
+    intro vst hvst
+    simp only [List.zip_cons_cons, List.mem_cons] at hvst
+    rcases hvst with hvst | hvst
+    · subst hvst; exact ⟨r1.1, h1⟩
+    · exact hs4 vst hvst
+
+omit [DecidableEq V] [RewardFn R V] in
+theorem Outcome.toOpt_eq_some {α : Type} {o : Outcome α} {a : α} : o.toOpt = some a ↔ o = .ok a := by
+  cases o <;> simp [Outcome.toOpt]
+
+/-- an evaluation that succeeds is a run of the spec -/
+theorem evaluate_ok_spec' {σ : Type} (c : Config) (L : Learner σ V) (first : Dict (Fld V R)) (rest : List (Dict (Fld V R)))
+    (s s' : σ) (calls : List (Call V)) (rows : List (Row V R))
+    (hwf : wfEnv (first :: rest) = true) (hmiss : missingKeys c L.hasScore first = [])
+    (hseq : (mkFlags first).rwdsIsList = true → (mkFlags first).discrete = true)
+    (h : evaluate c L none (first :: rest) s = .ok (s', calls, rows)) :
+    ∃ full, specRun c (mkFlags first) L s ((first :: rest).map view) = some (s', calls, full)
+      ∧ rows = full.filter (fun o => !o.isEmpty) := by
+  have := evaluate_refines' c L first rest s hwf hmiss hseq
+  rw [h] at this
+  simp only [Outcome.toOpt] at this
+  cases hr : specRun c (mkFlags first) L s ((first :: rest).map view) with
+  | none => rw [hr] at this; simp at this
+  | some r =>
+    rw [hr] at this
+    simp only [Option.map_some, Option.some.injEq, Prod.mk.injEq] at this
+    obtain ⟨h1, h2, h3⟩ := this
+    exact ⟨r.2.2, by rw [h1, h2], h3⟩
+
+/-! ## model-level statements (used by Props/C06.lean) -/
+
+structure Hyp {σ : Type} (c : Config) (L : Learner σ V) (first : Dict (Fld V R)) (rest : List (Dict (Fld V R))) : Prop where
+  wf : wfEnv (first :: rest) = true
+  valid : missingKeys c L.hasScore first = []
+  seq : (mkFlags first).rwdsIsList = true → (mkFlags first).discrete = true
+
+theorem order_strict' {σ : Type} (c : Config) (L : Learner σ V) (first : Dict (Fld V R)) (rest : List (Dict (Fld V R)))
+    (s s' : σ) (calls : List (Call V)) (rows : List (Row V R)) (H : Hyp c L first rest)
+    (h : evaluate c L none (first :: rest) s = .ok (s', calls, rows)) :
+    ∃ groups : List (List (Call V)), calls = groups.flatten ∧ groups.length = (first :: rest).length ∧
+      ∀ vg ∈ ((first :: rest).map view).zip groups, ∀ call ∈ vg.2, Call.ctx call = vg.1.ctx := by
+  obtain ⟨full, hs, _⟩ := evaluate_ok_spec' c L first rest s s' calls rows H.wf H.valid H.seq h
+  obtain ⟨gs, h1, _, h3, h4⟩ := specRun_order L _ s _ hs
+  exact ⟨gs, h1, by simpa using h3, h4⟩
+
+theorem kwargs_roundtrip' {σ : Type} (c : Config) (L : Learner σ V) (first : Dict (Fld V R)) (rest : List (Dict (Fld V R)))
+    (s s' : σ) (calls : List (Call V)) (rows : List (Row V R)) (H : Hyp c L first rest)
+    (hl : c.learn = .on ∨ c.learn = .ips)
+    (h : evaluate c L none (first :: rest) s = .ok (s', calls, rows)) :
+    ∃ steps : List (σ × List (Call V)), steps.length = (first :: rest).length ∧ calls = (steps.map (·.2)).flatten ∧
+      ∀ vst ∈ ((first :: rest).map view).zip steps,
+        ∃ rew, (if c.learn = .on then envReward vst.1 (L.predict vst.2.1 vst.1.ctx vst.1.acts).2.action
+                else ipsReward vst.1 (some (L.predict vst.2.1 vst.1.ctx vst.1.acts).2.action)) = some rew ∧
+          vst.2.2 = [Call.predict vst.1.ctx vst.1.acts,
+                     Call.learn vst.1.ctx (some (L.predict vst.2.1 vst.1.ctx vst.1.acts).2.action) (some rew)
+                       (L.predict vst.2.1 vst.1.ctx vst.1.acts).2.prob (L.predict vst.2.1 vst.1.ctx vst.1.acts).2.kw] := by
+  obtain ⟨full, hs, _⟩ := evaluate_ok_spec' c L first rest s s' calls rows H.wf H.valid H.seq h
+  obtain ⟨st, h1, h2, _, h4⟩ := specRun_steps L _ s _ hs
+  refine ⟨st.map (fun x => (x.1, x.2.1)), by simpa using h1, by simpa [Function.comp_def] using h2, ?_⟩
+  intro vst hvst
+  rw [List.zip_map_right] at hvst
+  simp only [List.mem_map] at hvst
+  obtain ⟨vx, hvx, heq⟩ := hvst
+  subst heq
+  obtain ⟨s2, hsi⟩ := h4 vx hvx
+  exact specInter_on_policy L vx.2.1 vx.1 (s2, vx.2.2.1, vx.2.2.2) hsi hl
+
+theorem off_policy' {σ : Type} (c : Config) (L : Learner σ V) (first : Dict (Fld V R)) (rest : List (Dict (Fld V R)))
+    (s s' : σ) (calls : List (Call V)) (rows : List (Row V R)) (H : Hyp c L first rest) (hl : c.learn = .off)
+    (h : evaluate c L none (first :: rest) s = .ok (s', calls, rows)) :
+    ∃ groups : List (List (Call V)), groups.length = (first :: rest).length ∧ calls = groups.flatten ∧
+      ∀ vg ∈ ((first :: rest).map view).zip groups,
+        vg.2.getLast? = some (Call.learn vg.1.ctx vg.1.offAct vg.1.offRwd vg.1.offPr []) := by
+  obtain ⟨full, hs, _⟩ := evaluate_ok_spec' c L first rest s s' calls rows H.wf H.valid H.seq h
+  obtain ⟨st, h1, h2, _, h4⟩ := specRun_steps L _ s _ hs
+  refine ⟨st.map (·.2.1), by simpa using h1, h2, ?_⟩
+  intro vg hvg
+  rw [List.zip_map_right] at hvg
+  simp only [List.mem_map] at hvg
+  obtain ⟨vx, hvx, heq⟩ := hvg
+  subst heq
+  obtain ⟨s2, hsi⟩ := h4 vx hvx
+  exact specInter_off_policy L vx.2.1 vx.1 (s2, vx.2.2.1, vx.2.2.2) hsi hl
+
+theorem no_predict' {σ : Type} (c : Config) (L : Learner σ V) (first : Dict (Fld V R)) (rest : List (Dict (Fld V R)))
+    (s s' : σ) (calls : List (Call V)) (rows : List (Row V R)) (H : Hyp c L first rest)
+    (hnp : needPred c L.hasScore = false)
+    (h : evaluate c L none (first :: rest) s = .ok (s', calls, rows)) :
+    ∀ call ∈ calls, Call.isPredict call = false := by
+  obtain ⟨full, hs, _⟩ := evaluate_ok_spec' c L first rest s s' calls rows H.wf H.valid H.seq h
+  exact specRun_no_predict L hnp _ s _ hs
+
+theorem extra_fields_carried' {σ : Type} (c : Config) (L : Learner σ V) (first : Dict (Fld V R)) (rest : List (Dict (Fld V R)))
+    (s s' : σ) (calls : List (Call V)) (rows : List (Row V R)) (H : Hyp c L first rest)
+    (h : evaluate c L none (first :: rest) s = .ok (s', calls, rows)) :
+    ∃ full : List (Row V R), full.length = (first :: rest).length ∧ rows = full.filter (fun o => !o.isEmpty) ∧
+      ∀ vr ∈ ((first :: rest).map view).zip full,
+        ∃ pre : Row V R, vr.2 = pre ++ vr.1.extras.map (fun kv => (kv.1, Cell.fld kv.2)) ∧ ∀ b ∈ pre, b.1 ∈ implicitExclude := by
+  obtain ⟨full, hs, hrows⟩ := evaluate_ok_spec' c L first rest s s' calls rows H.wf H.valid H.seq h
+  obtain ⟨st, h1, _, h3, h4⟩ := specRun_steps L _ s _ hs
+  simp only at h3
+  refine ⟨full, by rw [h3]; simpa using h1, hrows, ?_⟩
+  intro vr hvr
+  rw [h3, List.zip_map_right] at hvr
+  simp only [List.mem_map] at hvr
+  obtain ⟨vx, hvx, heq⟩ := hvr
+  subst heq
+  obtain ⟨s2, hsi⟩ := h4 vx hvx
+  exact specInter_extras L vx.2.1 vx.1 (s2, vx.2.2.1, vx.2.2.2) hsi
+
+omit [DecidableEq V] [RewardFn R V] in
+theorem exists_zip_of_mem_right {α β : Type} (xs : List α) (ys : List β) (h : ys.length = xs.length) (y : β) (hy : y ∈ ys) :
+    ∃ x, x ∈ xs ∧ (x, y) ∈ xs.zip ys := by
+  induction xs generalizing ys with
+  | nil =>
+    have : ys = [] := List.eq_nil_of_length_eq_zero (by simpa using h)
+    subst this; cases hy
+  | cons x xs ih =>
+    cases ys with
+    | nil => cases hy
+    | cons y' ys =>
+      simp only [List.mem_cons] at hy
+      rcases hy with hy | hy
+      · subst hy; exact ⟨x, by simp, by simp⟩
+      · obtain ⟨x', hx1, hx2⟩ := ih ys (by simpa using h) hy
+        exact ⟨x', by simp [hx1], by simp [hx2]⟩
+
+/-- one row per interaction whenever the interactions carry an additional field -/
+theorem one_row_per_interaction' {σ : Type} (c : Config) (L : Learner σ V) (first : Dict (Fld V R)) (rest : List (Dict (Fld V R)))
+    (s s' : σ) (calls : List (Call V)) (rows : List (Row V R)) (H : Hyp c L first rest)
+    (hex : ∀ d ∈ first :: rest, extrasOf d ≠ [])
+    (h : evaluate c L none (first :: rest) s = .ok (s', calls, rows)) :
+    rows.length = (first :: rest).length := by
+  obtain ⟨full, h1, h2, h3⟩ := extra_fields_carried' c L first rest s s' calls rows H h
+  have : ∀ o ∈ full, (!o.isEmpty) = true := by
+    intro o ho
+    obtain ⟨v, hv, hvo⟩ := exists_zip_of_mem_right ((first :: rest).map view) full (by simpa using h1) o ho
+    obtain ⟨pre, hp, _⟩ := h3 _ hvo
+    simp only at hp
+    simp only [List.mem_map] at hv
+    obtain ⟨d, hd, hdv⟩ := hv
+    have hne := hex d hd
+    subst hdv
+    rw [hp]
+    cases hx : (view d).extras with
+    | nil => exact absurd hx hne
+    | cons k ks => simp
+  rw [h2, List.filter_eq_self.mpr this, h1]
+
+theorem validate_partial' {σ : Type} (c : Config) (L : Learner σ V) (bs : Option Nat) (first : Dict (Fld V R))
+    (rest : List (Dict (Fld V R))) (s : σ) (hp : ipsWithoutProb c first = false) :
+    (∃ ks, evaluate c L bs (first :: rest) s = .rejected ks) ↔ ∃ k ∈ requiredS c L.hasScore, first.has k = false := by
+  rw [validate_iff']
+  constructor
+  · rintro ⟨f', r', heq, k, hk, hh⟩
+    simp only [List.cons.injEq] at heq
+    rw [← heq.1] at hh
+    exact ⟨k, (mem_requiredS_iff c L.hasScore k).mpr (Or.inl hk), hh⟩
+  · rintro ⟨k, hk, hh⟩
+    rcases (mem_requiredS_iff c L.hasScore k).mp hk with hk | ⟨hkp, hips⟩
+    · exact ⟨first, rest, rfl, k, hk, hh⟩
+    · subst hkp
+      simp only [ipsWithoutProb, Bool.and_eq_false_iff, Bool.or_eq_false_iff, lm_beq, em_beq, decide_eq_false_iff_not,
+        Bool.not_eq_false'] at hp
+      rcases hp with hp | hp
+      · rcases hips with h | h
+        · exact absurd h hp.1
+        · exact absurd h hp.2
+      · rw [hp] at hh; cases hh
+
 end Coba.C06
